@@ -245,8 +245,18 @@ End DSIR.
 
 Definition opt_list {A} (o : option (list A)) : list A := match o with Some l => l | None => [] end.
 
-(* initial_infecteds: None (random.sample by rho, or one node) or the given collection *)
-Definition with_initial (g : graph) (i0 : option (list node)) (rho : option Q)
+(* initial_infecteds: None (random.sample by rho, or one node) or the given collection.
+   [pop] = the population handed to random.sample: list(G) for basic_discrete_SIS; for discrete_SIR
+   the nodes of G that are not initially recovered, in graph order ([sample_pop]); the number drawn is
+   int(round(G.order()*rho)) -- of ALL nodes -- or 1.  random.sample(pop, n) with n > len(pop) is a
+   ValueError (e.g. every node initially recovered). *)
+Definition sample_pop (g : graph) (r0 : option (list node)) : list node :=
+  match r0 with
+  | None => gnodes g
+  | Some l => filter (fun u => negb (mem u l)) (gnodes g)
+  end.
+
+Definition with_initial (g : graph) (pop : list node) (i0 : option (list node)) (rho : option Q)
     (k : list node -> samp dout) : samp dout :=
   match rho, i0 with
   | Some _, Some _ => Fail EoNError
@@ -256,7 +266,7 @@ Definition with_initial (g : graph) (i0 : option (list node)) (rho : option Q)
     | None =>
       let n := match rho with None => 1%Z | Some r => d_round_half_even (Qnat (length (gnodes g)) * r) end in
       if (n <? 0)%Z then Fail ValueErr
-      else Sample (map knode (gnodes g)) (Z.to_nat n) (fun ks => k (concat ks))
+      else Sample (map knode pop) (Z.to_nat n) (fun ks => k (concat ks))
     end
   end.
 
@@ -269,7 +279,7 @@ Definition discrete_SIR (g : graph) (R : rules) (trec : option (node -> nat -> b
   match rho, r0 with
   | Some _, Some _ => Fail EoNError
   | _, _ =>
-    with_initial g i0 rho (fun l =>
+    with_initial g (sample_pop g r0) i0 rho (fun l =>
       dloop g R trec ord tmin tmax full l (opt_list r0) fuel O tmin
             (init_state g tmin full l (opt_list r0)))
   end.
@@ -355,7 +365,7 @@ End DSIS.
 Definition basic_discrete_SIS_R (g : graph) (R : rules) (ord : nat -> list node -> list node)
     (i0 : option (list node)) (rho : option Q) (tmin : Q) (tmax : xtime) (full : bool) (fuel : nat)
   : samp dout :=
-  with_initial g i0 rho (fun l =>
+  with_initial g (gnodes g) i0 rho (fun l =>
     sis_loop g R ord tmin tmax full l fuel O tmin (sis_init g tmin full l)).
 Definition basic_discrete_SIS (g : graph) (p : Q) ord i0 rho tmin tmax full fuel : samp dout :=
   basic_discrete_SIS_R g (simple_rules p) ord i0 rho tmin tmax full fuel.
